@@ -27,6 +27,8 @@ func c01(c *Ctx) {
 
 	r.Rule("C01.control-undisturbing", "control frames arriving between data frames do not end the data stream: the default ping/pong/close handlers are the documented ones and the default ping and pong handlers return nil whatever WriteControl reports (same rule as C08.defaults)")
 	c08defaults(c, rd, "C01.control-undisturbing")
+	r.Rule("C01.write-bounds", "class invariant of the message writer, by assume/guarantee over all writer methods: maxFrameHeaderSize <= w.pos <= len(writeBuf) and len(writeBuf) > maxFrameHeaderSize are established by newConn/beginMessage, preserved by every store to w.pos, and make every index/slice site of Write, WriteString, ReadFrom, ncopy, flushFrame, Close and the WriteMessage fast path in bounds for every payload size and chunking; ncopy grants 1 <= n <= min(max, room) so the Write loops make progress")
+	w.writeBounds("C01.write-bounds")
 	w.frameHeader("C01.writer-codec", "C01.writer-codec", "C01.writer-codec")
 	w.controlHeader("C01.writer-codec", "C01.writer-codec", "C01.writer-codec")
 	rd.parserRules("C01.reader-codec", "C01.reader-codec", "C01.reader-codec", "C01.reader-codec")
@@ -240,18 +242,23 @@ func (w *writerA) extraServerOnly(rule string) {
 	c, r := w.c, w.c.R
 	isServer := c.P.Field("Conn", "isServer")
 	n := 0
+	hosts := map[*ssa.Function]bool{}
 	for _, g := range c.P.FuncList {
-		calls := false
 		for _, b := range g.Blocks {
 			for _, in := range b.Instrs {
 				if ci, ok := in.(ssa.CallInstruction); ok && ci.Common().StaticCallee() == w.flush {
 					if k, isC := ci.Common().Args[2].(*ssa.Const); !isC || k.Value != nil {
-						calls = true
+						// a helper extracted later is judged inside its callers (they may establish the role)
+						for _, h := range c.hostsOf(g) {
+							hosts[h] = true
+						}
 					}
 				}
 			}
 		}
-		if !calls {
+	}
+	for _, g := range c.P.FuncList {
+		if !hosts[g] {
 			continue
 		}
 		ok, why := true, "flushFrame(.., extra != nil) only under [c.isServer]"
